@@ -87,13 +87,13 @@ class SyntaxParserOfLark:
 		# ストレージに存在しないモジュールはメモリ上に存在すると見做して毎回パース
 		if not self.__sources.exists(source_path):
 			try:
-				return EntryOfLark(parser.parse(self.__source_provider(module_path)))
+				return EntryOfLark(parser.parse(self.__load_source(module_path)))
 			except Exception as e:
 				raise Errors.Syntax(source_path, e) from e
 
 		def instantiate() -> EntryStored:
 			try:
-				return EntryStored(EntryOfLark(parser.parse(self.__source_provider(module_path))))
+				return EntryStored(EntryOfLark(parser.parse(self.__load_source(module_path))))
 			except Exception as e:
 				raise Errors.Syntax(source_path, e) from e
 
@@ -103,6 +103,23 @@ class SyntaxParserOfLark:
 		}
 		decorator = self.__caches.get(basepath, identity=identity, format='json')
 		return decorator(instantiate)().entry
+
+	def __load_source(self, module_path: str) -> str:
+		"""ソースコードをロード
+
+		Args:
+			module_path: モジュールパス
+		Returns:
+			ソースコード
+		Note:
+			```
+			* 末尾が改行で終わらないソースは改行を補完する
+			* 補完しない場合、PythonIndenterが入力終端で生成する_DEDENTは位置情報を持たず、
+			  末尾のブロックを含む全エントリーのソースマップの終了位置がNoneになる
+			```
+		"""
+		source = self.__source_provider(module_path)
+		return source if source.endswith('\n') else f'{source}\n'
 
 	def dirty_get_origin(self) -> lark.Lark:
 		"""Larkインスタンスを取得(デバッグ用)
